@@ -352,6 +352,8 @@ func init() {
 					return "", ""
 				})...)
 			}
+			// the programs of the other concurrent families, judged by the leak phase alone (cross.go)
+			items = append(items, crossItems("C16", tier, judgeLeak)...)
 			return items
 		},
 	})
